@@ -267,18 +267,23 @@ CLAIMS["C11"] = dict(
 
 CLAIMS["C17"] = dict(
     category="other",
-    text=("Decides by symbolic interpretation of ScalarRootFind.rtsafe_ (opaque user function f@x with derivative df@x, comparisons decided at "
-          "one rational sample per situation, values kept symbolic and compared exactly): the initial while-loop carry in 10 situations (sign change "
-          "either way round, guess inside / below / above the bracket, no sign change, either end point an exact root): the iteration starts from the "
-          "guess clipped into the bracket, from NaN without a sign change, from an end point that is a root (with converged set), and the bracket is "
-          "oriented so that its first end is where f < 0; one loop step in 9 situations (Newton admissible, leaving the bracket, converging too slowly, "
-          "decreasing function, residual / step below tolerance, stagnating bisection and Newton steps with zero tolerances): new iterate = x - f/f' or the "
-          "midpoint, step, bracket maintenance consistent with the orientation, residual slot = f(new iterate), counter + 1, convergence flag = stagnation | "
-          "|dx| < x_tol | |F| < r_tol; the loop guard; the returned root is the loop's iterate masked by the loop's flag (NaN otherwise) and "
-          "SolutionInfo.converged is that flag; find_root is custom_root(f, x0, rtsafe_ on the same bracket/settings, y/g(1)); get_settings fills Settings "
-          "fields by name. That the iteration reaches the tolerance and stays in the bracket for every function is trajectory dependent and NOT decided."),
+    text=("Decides by symbolic interpretation of the public find_root (rules/C17_sym.py, an extension of optilint.tensoreval: custom_root and "
+          "while_loop act as recorders, the analysis then calls the recorded solver, loop body, loop guard and post-loop code itself; opaque user "
+          "function f@x with derivative df@x; comparisons decided at one rational sample per situation, values kept symbolic and compared "
+          "exactly; the loop carry may be a tuple, list, namedtuple, dict or any nesting and its slots are identified by role -- from the initial "
+          "values, else by a def-use probe of the body -- never by name or position): the initial carry in 10 situations (sign change either way "
+          "round, guess inside / below / above the bracket, no sign change, either end point an exact root): start from the guess clipped into the "
+          "bracket, from NaN without a sign change, from an end point that is a root (converged set), bracket oriented so that its first end is "
+          "where f < 0; one loop step in 11 situations (Newton admissible, leaving the bracket, converging too slowly with dx != dxOld, decreasing "
+          "function, each tolerance alone, stagnating bisection / Newton steps): new iterate = x - f/f' or the midpoint, both step slots, bracket "
+          "maintenance consistent with the orientation, residual slot = f(new iterate), counter + 1, convergence flag = stagnation | |dx| < x_tol | "
+          "|F| < r_tol; the loop guard; the returned root is the loop's iterate masked by the loop's flag (NaN otherwise) and "
+          "SolutionInfo.converged is that flag; the solver handed to custom_root depends on its own (F, X0) only and the tangent solve is y/G for "
+          "linear g of slope +2 and -3; get_settings puts each parameter into the field of the same name and each tolerance reaches its own "
+          "test. That the iteration reaches the tolerance and stays in the bracket for every function is trajectory dependent and NOT decided. "
+          "A role guessed by behaviour only counts if the body then behaves exactly as specified, otherwise UNDECIDED; REFUTED only for derived values."),
     design_ref="DESIGN.md section 4, C17; section 11.8",
-    technique="static analysis: abstract interpretation of the source on symbolic values with situation (region) sampling for branch decisions, exact rational identities, custom_root protocol and named-field wiring rules")
+    technique="static analysis: abstract interpretation of the source on symbolic values with situation (region) sampling for branch decisions, role inference for loop-carry slots, exact rational identities")
 
 CLAIMS["C16"] = dict(
     category="other",
